@@ -481,8 +481,9 @@ def gen_cli_case(ctx, rng, target=None):
     models = [rng.choice(names) for _ in range(rng.randint(2, 5))]
     if rng.random() < 0.5:
         models.append(models[0])
-    if target == "casadi" and rng.random() < 0.2:
-        models.insert(rng.randrange(len(models) + 1), "NoSuchModel")
+    if rng.random() < 0.6:
+        # a model that fails (not in the library) somewhere before the end: the later ones must not notice
+        models.insert(rng.randrange(len(models)), "NoSuchModel")
     return dict(stream="cli", text=text, files=files, models=models, target=target)
 
 
